@@ -116,12 +116,12 @@ def rule_eq_wrap(ctx: RuleContext, p: Program, rid: str) -> None:
 
 def run(ctx: RuleContext, p: Program) -> None:
     tcs = build_tree_classes(p)
-    gen.rule_cover_eq(ctx, p, tcs, 'COVER-EQ')
+    ctx.try_rule(gen.rule_cover_eq, p, tcs, 'COVER-EQ')
     ctx.require_min('COVER-EQ', 34)
-    handmodels.rule_hand_eq(ctx, p, 'COVER-EQ')
-    rule_eq_base(ctx, p, 'EQ-BASE')
-    rule_eq_hash(ctx, p, 'EQ-HASH')
-    rule_eq_wrap(ctx, p, 'EQ-WRAP')
+    ctx.try_rule(handmodels.rule_hand_eq, p, 'COVER-EQ')
+    ctx.try_rule(rule_eq_base, p, 'EQ-BASE')
+    ctx.try_rule(rule_eq_hash, p, 'EQ-HASH')
+    ctx.try_rule(rule_eq_wrap, p, 'EQ-WRAP')
     ctx.not_decided += ['equality of two parses of one text (runtime)', 'inequality after every single edit (runtime)',
                         'symmetry for mixed token/tree comparisons']
     ctx.assumptions += ['list/tuple == is element-wise', 'a zero-width placeholder carries no text or structure']
